@@ -82,8 +82,17 @@ Theorem C12_label_fresh : forall evs v n, forallb live_event evs = true -> n <> 
 Proof. exact label_fresh_live. Qed.
 Print Assumptions C12_label_fresh.
 
-(* label_fresh_refuted: the schedule that allocates between the acknowledgement of an ingest and
-   its background max-label update (storeBlocks fires `go d.updateBlockMaxLabel` and returns). *)
+(* With the ingest paths updating the maximum BEFORE they acknowledge (repo_patches/C12-1-fix.diff),
+   for every history of acknowledged requests (allocations, ingests, max-label posts) the next
+   allocation is above every label present — no proviso. *)
+Theorem C12_label_fresh_acked : forall qs v n, n <> 0 ->
+  let s := fst (lrun l_fresh (expand_reqs qs)) in
+  exists b e, snd (lstep s (LAlloc v n)) = Some (b, e) /\ forall l, In l (l_present s) -> l < b.
+Proof. exact label_fresh_acked. Qed.
+Print Assumptions C12_label_fresh_acked.
+
+(* label_fresh_refuted, the code as it stood: storeBlocks fired `go d.updateBlockMaxLabel` and
+   returned, so an allocation could fall between the acknowledgement and the update. *)
 Theorem C12_label_fresh_refuted :
   let s := fst (lrun l_fresh [LIngest 1 [1000]]) in
   l_up s = true /\ In 1000 (l_present s) /\ snd (lstep s (LAlloc 1 1)) = Some (1, 1).
@@ -98,13 +107,13 @@ Theorem C12_label_fresh_crash_refuted :
 Proof. exact label_fresh_crash_refuted. Qed.
 Print Assumptions C12_label_fresh_crash_refuted.
 
-(* label_fresh across restarts is NOT claimed for all histories (_partial): the check-then-act in
-   updateBlockMaxLabel can leave the smaller of two block maxima in MaxLabel[v]; normally the
-   persisted repo-wide maximum covers that, except when the repo-wide value in memory is the
-   10-billion default of an instance restarted before anything was persisted. *)
+(* label_fresh across restarts is not proved for all histories (_partial).  The one counterexample
+   found needed an instance restarted before anything was persisted (its repo-wide maximum in memory
+   was the 10-billion default, backed by nothing on disk); instances created by the repaired code
+   persist their maximum at creation (repo_patches/C03-2-fix.diff) and do not reach that state. *)
 Theorem C12_label_reload_refuted :
   let evs := [LCrash; LRestart; LIngest 1 [10; 20]; LBgRead 0; LBgRead 1; LBgWrite 1; LBgWrite 0; LCrash; LRestart] in
-  let s := fst (lrun l_fresh evs) in
+  let s := fst (lrun l_fresh_unrepaired evs) in
   settled s = true /\ In 20 (l_present s) /\ snd (lstep s (LAlloc 1 1)) = Some (11, 11).
 Proof. exact label_reload_refuted. Qed.
 Print Assumptions C12_label_reload_refuted.
